@@ -570,7 +570,9 @@ func (ev *evaluator) node(e *env, n *Node) {
 		ev.mark(evBarrier)
 	case "script":
 		ev.atom(tagCanon("script", nil), false, false)
-		if n.Text != "" {
+		if strings.Contains(n.Text, "{{") {
+			ev.evs = append(ev.evs, event{kind: evAtom, wild: true}) // a script with Go values: any text
+		} else if n.Text != "" {
 			ev.atom(n.Text, false, false)
 		}
 		ev.atom("\x00</script>\x01", false, false)
